@@ -52,8 +52,8 @@ def handleEval (r : Req) : String :=
                               ctx := { m.ctx with ip := m.code.length } }
     match Mach.run nativeProg runFuel m1 with
     | none => "timeout"
-    | some (.panic p, m2) => if p.startsWith "model:" then "unsupported" else s!"panic@{dump r.setup.full m2}"
     | some (o, m2) =>
+      if isModelGap o then "unsupported" else
       let tok := match o with
         | .ok _ => ""
         | _ => s!" tok={(s.dmap[m2.ctx.ip]?).getD 0}"
@@ -87,10 +87,10 @@ def handleStruct (r : Req) : String :=
         | none => "timeout"
         | some (.panic p, m2) => if p.startsWith "model:" then "unsupported" else s!"panic@{obs m2}"
         | some (.ok _, m2) => s!"ok@{obs m2}"
-        | some (.err e, m2) => s!"err {errStr e} tok={(s.dmap[m2.ctx.ip]?).getD 0}@{obs m2}"
+        | some (.err e, m2) => if isModelGap (.err e : Outcome Unit) then "unsupported" else s!"err {errStr e} tok={(s.dmap[m2.ctx.ip]?).getD 0}@{obs m2}"
       let ev := match evalS nativeProg structFuel st m1 with
         | .ok m2 => s!"ok@{obs m2}"
-        | .err e t m2 => s!"err {errStr e} tok={t}@{obs m2}"
+        | .err e t m2 => if isModelGap (.err e : Outcome Unit) then "unsupported" else s!"err {errStr e} tok={t}@{obs m2}"
         | .panic p t m2 => if p.startsWith "model:" then "unsupported" else s!"panic@{obs m2}"
         | .brk _ _ => "stray-break"
         | .exitCase _ => "stray-exitcase"
